@@ -7,9 +7,9 @@ PROPS["C08"] = dict(
     stages=[
         dict(name="enum", module="MC_C08",
              cfg={"quick": "MC_C08_quick.cfg", "thorough": "MC_C08_thorough.cfg"},
-             timeout={"quick": 300, "thorough": 1500}),
+             timeout={"quick": 900, "thorough": 1500}),
         dict(name="rich", module="MC_C08", cfg={"quick": "MC_C08_rich1.cfg", "thorough": "MC_C08_rich.cfg"},
-             timeout={"quick": 300, "thorough": 1500}),
+             timeout={"quick": 900, "thorough": 1500}),
     ],
     nontrivial=lambda r: any(t for t in (r.get("tags") or []) if not t.startswith("ty:")),
     rule="one case per expression tree (typed, every operator choice on every tree shape up to MaxOps operators, "
@@ -26,7 +26,7 @@ PROPS["C08"] = dict(
 PROPS["C09"] = dict(
     level="model_checking",
     stages=[dict(name="enum", module="MC_C09", cfg={"quick": "MC_C09_quick.cfg", "thorough": "MC_C09_thorough.cfg"},
-                 timeout={"quick": 300, "thorough": 1500})],
+                 timeout={"quick": 900, "thorough": 1500})],
     rule="one case per program of the families ifc/ifl (if-chains over condition values of every type, from context and as "
          "literals), loop (lists, typed slices, strings incl. multi-byte, strings of 6 .. MaxStr code points with one wide character "
          "at every position, ranges; all 7 loop counters printed), kv, nest "
@@ -41,7 +41,7 @@ PROPS["C09"] = dict(
 PROPS["C10"] = dict(
     level="model_checking",
     stages=[dict(name="enum", module="MC_C10", cfg={"quick": "MC_C10_quick.cfg", "thorough": "MC_C10_thorough.cfg"},
-                 timeout={"quick": 300, "thorough": 2700})],
+                 timeout={"quick": 900, "thorough": 2700})],
     nontrivial=lambda r: "chain:0" not in (r.get("tags") or []),
     rule="one case per extends chain: child levels x per-block definition kind (absent/text/empty/text+parent()/parent()/"
          "parent() twice/override that nests a definition of the other block) x base kinds x 9 base layouts (top, nested, loop, loop in a "
@@ -54,7 +54,7 @@ PROPS["C10"] = dict(
 PROPS["C11"] = dict(
     level="model_checking",
     stages=[dict(name="enum", module="MC_C11", cfg={"quick": "MC_C11_quick.cfg", "thorough": "MC_C11_thorough.cfg"},
-                 timeout={"quick": 300, "thorough": 900})],
+                 timeout={"quick": 900, "thorough": 900})],
     rule="one case per (with, only, ignore missing, name form, behaviour of the included template, placement); two real "
          "renders per case: the program and the program with the include removed (2-run non-interference); two-level includes; "
          "included templates that set from inside if branches (else-only / then and elseif bodies, nested); "
@@ -68,7 +68,7 @@ PROPS["C11"] = dict(
 PROPS["C12"] = dict(
     level="model_checking",
     stages=[dict(name="enum", module="MC_C12", cfg={"quick": "MC_C12_quick.cfg", "thorough": "MC_C12_thorough.cfg"},
-                 timeout={"quick": 300, "thorough": 900})],
+                 timeout={"quick": 900, "thorough": 900})],
     rule="one case per (arity, default subset, argument count, body kind, call site); each rendered in every applicable call "
          "form (local, _self, import as, from import, from import as); macros named like built-in functions (max range min date "
          "length); default expressions that are spy calls, rendered twice on the same engine with the callback counts compared; "
@@ -80,7 +80,7 @@ PROPS["C12"] = dict(
 PROPS["C06"] = dict(
     level="model_checking",
     stages=[dict(name="enum", module="MC_C06", cfg={"quick": "MC_C06_quick.cfg", "thorough": "MC_C06_thorough.cfg"},
-                 timeout={"quick": 300, "thorough": 900})],
+                 timeout={"quick": 900, "thorough": 900})],
     nontrivial=lambda r: "pol:allow" not in (r.get("tags") or []),
     rule="one case per (position of the forbidden name, function|filter, route below the sandbox boundary, policy); spy "
          "callbacks count invocations; forbidden => security error and the forbidden spy's count is 0 whatever the outcome, "
@@ -95,7 +95,7 @@ PROPS["C06"] = dict(
 PROPS["C17"] = dict(
     level="model_checking",
     stages=[dict(name="enum", module="MC_C17", cfg={"quick": "MC_C17_quick.cfg", "thorough": "MC_C17_thorough.cfg"},
-                 timeout={"quick": 300, "thorough": 900})],
+                 timeout={"quick": 900, "thorough": 900})],
     nontrivial=lambda r: "kind:base" not in (r.get("tags") or []),
     rule="corpus of template structures with a spy at every callback position; TLC learns the invocation counts of the "
          "fault-free run and enumerates every single-fault placement (spy j fails at its m-th invocation, incl. one placement "
@@ -146,11 +146,11 @@ def _long_runs(lines, seed, tier):
 PROPS["C13"] = dict(
     level="model_checking",
     stages=[dict(name="enum", module="MC_C13", cfg={"quick": "MC_C13_quick.cfg", "thorough": "MC_C13_thorough.cfg"},
-                 timeout={"quick": 300, "thorough": 1500}, transform=_long_runs),
+                 timeout={"quick": 900, "thorough": 1500}, transform=_long_runs),
             # a dash works at every template size: fully dashed templates whose token count sweeps through every
             # capacity step of the pooled token buffers, below and above the large-template threshold (MC_C14's sweeps)
             dict(name="sweep", module="MC_C14", cfg={"quick": "MC_C13_sweep_quick.cfg", "thorough": "MC_C13_sweep_thorough.cfg"},
-                 timeout={"quick": 300, "thorough": 900})],
+                 timeout={"quick": 900, "thorough": 900})],
     nontrivial=lambda r: "ndash:0" not in (r.get("tags") or []),
     rule="corpus of templates covering every tag kind x set D of dashed delimiter sides (all subsets for small templates, "
          "singletons/pairs/all/all-but-one otherwise) x 6 whitespace styles of the neighbouring text; two real renders per "
@@ -164,7 +164,7 @@ PROPS["C13"] = dict(
 PROPS["C14"] = dict(
     level="model_checking",
     stages=[dict(name="enum", module="MC_C14", cfg={"quick": "MC_C14_quick.cfg", "thorough": "MC_C14_thorough.cfg"},
-                 timeout={"quick": 300, "thorough": 1800}, limit="20s")],
+                 timeout={"quick": 900, "thorough": 1800}, limit="20s")],
     nontrivial=lambda r: True,
     rule="C13 corpus (every tag kind, with and without dashes) x pad position (each text piece, all text pieces) x pad "
          "content (plain text, text with lone braces/quotes/backslash, comment, empty print tags) ; one render per pad length "
@@ -177,7 +177,7 @@ PROPS["C14"] = dict(
 PROPS["C04"] = dict(
     level="model_checking",
     stages=[dict(name="enum", module="MC_C04", cfg={"quick": "MC_C04_quick.cfg", "thorough": "MC_C04_thorough.cfg"},
-                 timeout={"quick": 300, "thorough": 1500}, transform=lambda lines, seed, tier: _long_runs(lines, seed, tier))],
+                 timeout={"quick": 900, "thorough": 1500}, transform=lambda lines, seed, tier: _long_runs(lines, seed, tier))],
     nontrivial=lambda r: True,
     rule="every admissible literal (17 byte classes incl. NUL, invalid UTF-8, lone braces, %, #, -, backslash, quotes) of up "
          "to Side bytes before and after each of 8 tag kinds; every literal alone up to Alone bytes; every comment / verbatim "
@@ -190,7 +190,7 @@ PROPS["C04"] = dict(
 PROPS["C07"] = dict(
     level="model_checking",
     stages=[dict(name="enum", module="MC_C07", cfg={"quick": "MC_C07_quick.cfg", "thorough": "MC_C07_thorough.cfg"},
-                 timeout={"quick": 300, "thorough": 1500},
+                 timeout={"quick": 900, "thorough": 1500},
                  trace=dict(module="Trace_C07", cfg="Trace_C07.cfg"))],
     nontrivial=lambda r: "vt:str" in (r.get("tags") or []),
     rule="every string up to MaxLen over {< > & \" ' a ; # 3 9 e-acute euro 0xFF NUL} (+ already-escaped seeds, ints, null) "
@@ -204,7 +204,7 @@ PROPS["C07"] = dict(
 PROPS["C19"] = dict(
     level="model_checking",
     stages=[dict(name="enum", module="MC_C19", cfg={"quick": "MC_C19_quick.cfg", "thorough": "MC_C19_thorough.cfg"},
-                 timeout={"quick": 300, "thorough": 1500})],
+                 timeout={"quick": 900, "thorough": 1500})],
     nontrivial=lambda r: True,
     rule="every string up to MaxStr over {a B SP e-acute LF}, every int / string list up to MaxList (untyped, []int, []string), "
          "maps (untyped, map[string]int, map[string]string) x the filter chains of the property's equations; slice with every "
@@ -263,19 +263,19 @@ def _c15_fs(lines, seed, tier):
 PROPS["C15"] = dict(
     level="model_checking",
     stages=[dict(name="enum", module="CacheLoaders", cmd="cachehist", transform=_c15_fs,
-                 cfg={"quick": "MC_C15_mid.cfg", "thorough": "MC_C15_mid.cfg"}, timeout={"quick": 300, "thorough": 900}),
+                 cfg={"quick": "MC_C15_mid.cfg", "thorough": "MC_C15_mid.cfg"}, timeout={"quick": 900, "thorough": 900}),
             dict(name="walks", module="CacheLoaders", cmd="cachehist", cfg={"quick": "MC_C15_sim.cfg", "thorough": "MC_C15_sim.cfg"},
-                 simulate={"quick": 3000, "thorough": 60000}, depth=16, workers=1, timeout={"quick": 300, "thorough": 1500}, transform=_c15_fs),
+                 simulate={"quick": 3000, "thorough": 60000}, depth=16, workers=1, timeout={"quick": 900, "thorough": 1500}, transform=_c15_fs),
             # the timestamp-aware loader as a FileSystemLoader with two search paths (one name, auto-reload on from the start):
             # every history of 5 (6) operations
             dict(name="twopaths", module="CacheLoaders", cmd="cachehist", cfg={"quick": "MC_C15_fs2.cfg", "thorough": "MC_C15_fs2_thorough.cfg"},
-                 timeout={"quick": 300, "thorough": 900}),
+                 timeout={"quick": 900, "thorough": 900}),
             # a source that does not parse in the timestamp-aware loader (auto-reload on): every history of 6 operations on one name
             dict(name="broken", module="CacheLoaders", cmd="cachehist", cfg={"quick": "MC_C15_broken.cfg", "thorough": "MC_C15_broken.cfg"},
-                 timeout={"quick": 300, "thorough": 900}, transform=_c15_fs),
+                 timeout={"quick": 900, "thorough": 900}, transform=_c15_fs),
             # a name that is registered AND held by both loaders (m1): every history of 5 operations incl. registering the very text a loader holds
             dict(name="both", module="CacheLoaders", cmd="cachehist", cfg={"quick": "MC_C15_m1.cfg", "thorough": "MC_C15_m1.cfg"},
-                 timeout={"quick": 300, "thorough": 900}, transform=_c15_fs),
+                 timeout={"quick": 900, "thorough": 900}, transform=_c15_fs),
             dict(name="random", cfg={}, c2s=dict(gen="cachehist", cmd="cachehist", n={"quick": 300, "thorough": 4000}, len=80,
                                                  trace=dict(module="Trace_C15", cfg="Trace_C15.cfg")))],
     nontrivial=lambda r: True,
@@ -361,11 +361,11 @@ def _c20_floods(lines, seed, tier):
 PROPS["C20"] = dict(
     level="model_checking",
     stages=[dict(name="enum", module="AttrCache", cmd="attrhist", cfg={"quick": "MC_C20_quick.cfg", "thorough": "MC_C20_thorough.cfg"},
-                 timeout={"quick": 300, "thorough": 1500}, transform=_c20_floods),
+                 timeout={"quick": 900, "thorough": 1500}, transform=_c20_floods),
             dict(name="walks", module="AttrCache", cmd="attrhist", cfg={"quick": "MC_C20_sim.cfg", "thorough": "MC_C20_sim.cfg"},
                  # TLC's simulator checks the emitting invariant on every generated successor, so each walk yields
                  # one history per enabled last lookup (~280): num is the number of walks, not of histories
-                 simulate={"quick": 12, "thorough": 250}, depth=11, workers=1, timeout={"quick": 300, "thorough": 1500},
+                 simulate={"quick": 12, "thorough": 250}, depth=11, workers=1, timeout={"quick": 900, "thorough": 1500},
                  transform=_c20_floods)],
     nontrivial=lambda r: True,
     rule="every lookup history of length 2 over 41 objects (14 struct shapes incl. embedded structs at depth 1..4, shadowing, value/pointer "
@@ -383,7 +383,7 @@ PROPS["C20"] = dict(
 PROPS["C03"] = dict(
     level="model_checking",
     stages=[dict(name="enum", module="MC_C03", cfg={"quick": "MC_C03_quick.cfg", "thorough": "MC_C03_thorough.cfg"},
-                 timeout={"quick": 300, "thorough": 1500}, processes=3)],
+                 timeout={"quick": 900, "thorough": 1500}, processes=3)],
     nontrivial=lambda r: "order-insensitive" not in (r.get("tags") or []),
     rule="17 map-consuming programs x 6 maps (untyped, map[string]int, map[string]string, map[int]string, nested) classified by TLC as "
          "order-sensitive iff the reference output changes under some permutation of the key order; every date format string up to "
@@ -398,7 +398,7 @@ PROPS["C03"] = dict(
 PROPS["C18"] = dict(
     level="exploration",
     stages=[dict(name="enum", module="MC_C18", cfg={"quick": "MC_C18_quick.cfg", "thorough": "MC_C18_thorough.cfg"},
-                 timeout={"quick": 300, "thorough": 1500})],
+                 timeout={"quick": 900, "thorough": 1500})],
     nontrivial=lambda r: True,
     rule="filter chains up to MaxChain over {sort, reverse, merge, slice, keys, default, first, last, join} on shared data of 7 Go "
          "shapes ([]interface{} and []int with spare capacity, []string, [3]int, untyped and typed maps), re-observation of an "
@@ -421,7 +421,7 @@ PROPS["C16"] = dict(
     level="model_checking",
     stages=[dict(name="fmt", module="MC_CompiledFmt", cfg={"quick": "MC_CompiledFmt.cfg", "thorough": "MC_CompiledFmt.cfg"}, modelonly=True),
             dict(name="enum", module="MC_C16", cmd="compiled", cfg={"quick": "MC_C16_quick.cfg", "thorough": "MC_C16_thorough.cfg"},
-                 timeout={"quick": 300, "thorough": 900}, limit="30s",
+                 timeout={"quick": 900, "thorough": 900}, limit="30s",
                  trace=dict(module="Trace_C16", cfg="Trace_C16.cfg", mutate=_c16_corrupt))],
     nontrivial=lambda r: True,
     rule="sources (10 ASTs incl. macros, include, extends, invalid UTF-8, empty; literal sources of 4097 / 65535 / 65536 bytes / 1 MiB) x "
@@ -437,7 +437,7 @@ PROPS["C16"] = dict(
 PROPS["C05"] = dict(
     level="exploration",
     stages=[dict(name="enum", module="MC_C05", cfg={"quick": "MC_C05_quick.cfg", "thorough": "MC_C05_thorough.cfg"},
-                 timeout={"quick": 300, "thorough": 2400}, limit="5s")],
+                 timeout={"quick": 900, "thorough": 2400}, limit="5s")],
     nontrivial=lambda r: True,
     rule="tok: every sequence of up to SeqLen of 79 token classes (and up to SeqLenSmall of a 31-token alphabet) after {{ {% {%- {#, "
          "closed / unclosed / wrongly closed, optionally followed by a closing block tag; shape: 37 Go value shapes (nil, typed maps and "
